@@ -113,8 +113,6 @@ package geom
 // every other function of the dispatch layer: panic-freedom for every Geometry
 // satisfying GInv (the zero value included), callee methods of the concrete
 // types opaque
-//@ func convexHull
-//@   trusted
 //@ func Geometry.Densify
 //@   requires maxDistance > 0
 //@ func Geometry.AppendWKT
